@@ -100,7 +100,7 @@ theorem point_refused_unchanged (F : FloatOps) (s : C3D) (name : Bytes) (hM : Ma
   split at h
   · exact pointCols_refused_unchanged F s _ hM e l h
   · rename_i hlen
-    obtain ⟨g, hd, hok, _⟩ := updateParameters_ok_of_Mand F hM [name] [] (by intro hc; exact hlen (by omega))
+    obtain ⟨g, hd, hok, _⟩ := updateParameters_ok_of_Mand F hM [(Point.setName {} name).name] [] (by intro hc; exact hlen (by omega))
     rw [hok] at h; cases h
 
 theorem analog_refused_unchanged (F : FloatOps) (s : C3D) (name : Bytes) (hM : Mand s.groups)
@@ -109,7 +109,7 @@ theorem analog_refused_unchanged (F : FloatOps) (s : C3D) (name : Bytes) (hM : M
   split at h
   · exact analogCols_refused_unchanged F s _ hM e l h
   · rename_i hlen
-    obtain ⟨g, hd, hok, _⟩ := updateParameters_ok_of_Mand F hM [] [name] (by intro hc; exact hlen (by omega))
+    obtain ⟨g, hd, hok, _⟩ := updateParameters_ok_of_Mand F hM [] [(Channel.setName {} name).name] (by intro hc; exact hlen (by omega))
     rw [hok] at h; cases h
 
 /-- unknown group to lock / unlock -/
